@@ -574,7 +574,21 @@ fn prefix_for(req: &FReq, reply_ack: bool) -> (u64, u64) {
 }
 
 pub fn run_case(sim: &Sim, case: &Case) -> CaseResult {
+    run_case_opts(sim, case, false)
+}
+
+/// `tiny_nonblocking`: the client's socket is non-blocking with the kernel's minimal send
+/// buffer, so that large messages are written in kernel-made pieces with EAGAIN in between.
+pub fn run_case_opts(sim: &Sim, case: &Case, tiny_nonblocking: bool) -> CaseResult {
     let (cl_sock, peer_sock) = fdu::sockpair();
+    if tiny_nonblocking {
+        cl_sock.set_nonblocking(true).expect("nonblocking");
+        let v: libc::c_int = 1;
+        // SAFETY: valid socket and option buffer; the kernel clamps to its minimum.
+        unsafe {
+            libc::setsockopt(cl_sock.as_raw_fd(), libc::SOL_SOCKET, libc::SO_SNDBUF, &v as *const _ as *const libc::c_void, 4);
+        }
+    }
     sim.label_fd(cl_sock.as_raw_fd(), "client");
     sim.label_fd(peer_sock.as_raw_fd(), "peer");
     let seen = Arc::new(Mutex::new(Seen::default()));
